@@ -141,7 +141,11 @@ class HTTPReader:
                 cl_string = cl_string.strip()
                 if not (cl_string.isascii() and cl_string.isdigit()):
                     raise InvalidFramingError(f'invalid content-length "{cl_string}"')
-                http_body = cls._read_exactly(http_message.rfile, int(cl_string), InvalidFramingError)
+                try:
+                    content_length = int(cl_string)
+                except ValueError as ex:  # more digits than python converts (sys.get_int_max_str_digits)
+                    raise InvalidFramingError(f'invalid content-length ({len(cl_string)} digits)') from ex
+                http_body = cls._read_exactly(http_message.rfile, content_length, InvalidFramingError)
 
         # if we get compressed content then we check against server setting
         # if it matches continue and decompress
